@@ -444,13 +444,13 @@ theorem ordExact : OrdExact := by
   exact F64.ofInt_order x y (by simp only [F64.two53]; omega) (by simp only [F64.two53]; omega)
 
 section
-variable {m : EEnv} {s : Spec.Eval.Env} (hr : EnvRel m s)
+variable {coll : Bytes → Bool} {m : EEnv} {s : Spec.Eval.Env} (hr : EnvRel coll m s)
 include hr
 
 /-- the refinement with `< > <= >=`, WITHOUT hypothesis: on the fragment `fragO true` (scalar operators and
     the ordering comparisons on int/int, int/float, float/float operands, ints within ±2^53 as the
     specification demands) the model evaluates to what the specification says, and errs where it errs -/
-theorem eval_refines_spec_ordering (e : Expr) (hf : fragO true e = true) : Sim m s e :=
+theorem eval_refines_spec_ordering (e : Expr) (hf : fragO coll true e = true) : Sim m s e :=
   eval_refines_spec_with_ordering hr ordExact e hf
 end
 
